@@ -24,6 +24,12 @@ def cubes_view(tier):
     return [dict(lazy=l, symshape=True, backend=b) for l in ("d", "d/s") for b in ("memory", "sqlite")]
 
 
+def cubes_reopen(tier):
+    if tier == "quick":
+        return [dict(lazy="d", backend="sqlite-named")]
+    return [dict(lazy=l, backend="sqlite-named", symshape=True) for l in ("d", "d/s")]
+
+
 SPEC = Spec(
     pid="C17",
     title="Lazy directory loading, filtered views and the fs adaptor are transparent",
@@ -38,6 +44,14 @@ SPEC = Spec(
                   "_load_from_object_storage, Tree.load/from_list/iteritems, StorageMapping.__getitem__, ObjectStorage.get, index.diff.diff(hash_only), "
                   "DataFileSystem._get_key/info/ls/_get_fs_path/_open",
           stubs=("model filesystem holding the cache", "in-memory (pygtrie) index")),
+        H("reopen", "vf.harness.c17_lazy", "h_reopen", cubes_reopen, timeout={"quick": 300, "thorough": 900},
+          bounds={"quick": "SQLite-backed index (named in-memory database kept alive across close): one symbolic access (7 operations x 8 keys) that "
+                           "may load the directory, full load, removal of a symbolic entry below it, commit, close, re-open; the re-opened index "
+                           "must list what the explicit index lists after the same removal", "thorough": "plus symbolic tree shape, both lazy roots"},
+          smoke=[{"args": dict(o1=1, k1=0, dk=0, p1=True, p2=True, p3=True), "cube": {"lazy": "d", "backend": "sqlite-named"}}],
+          encodes="DataIndex.open/commit/close/load/_load/__delitem__/iteritems, DataIndexTrie._load/_dump/__setitem__/__delitem__/open, DataIndexEntry.to_dict/from_dict, "
+                  "sqltrie.JSONTrie (traced); sqltrie.SQLiteTrie + sqlite3 executed concretely outside tracing",
+          stubs=("model filesystem holding the cache", "sqltrie's SQL layer untraced")),
         H("view", "vf.harness.c17_lazy", "h_view", cubes_view, timeout={"quick": 200, "thorough": 900},
           bounds={"quick": "prefix-closed filter 'on the path to or below P' for a symbolic P out of 7 keys; lookup and listing of a symbolic key through the view",
                   "thorough": "plus symbolic tree shape"},
